@@ -5,7 +5,7 @@ from .. import condsim
 ID = "C04"
 LEVEL = "exploration"
 PROBES = ("evals_judged", "grads_judged")
-RULE = ("a condition of kind PINN / Mean / SingleModule(custom error+reduce) / AdaptiveWeights / Periodic / Data with input spaces of "
+RULE = ("a condition of kind PINN / Mean / SingleModule(custom error+reduce) / AdaptiveWeights / Periodic / IntegroPINN / Data with input spaces of "
         "1-2 variables whose model declares them in a different order than the sampler produces them, product samplers supplying the "
         "extra variable, samplers fresh / static / static with finite resample interval, 0-2 data functions with argument subsets in "
         "any order, optional learnable Parameter; then a history of 1-8 evaluations under SimRNG (value faults and spurious "
@@ -17,7 +17,7 @@ RULE = ("a condition of kind PINN / Mean / SingleModule(custom error+reduce) / A
         "the analytic one; the returned loss equals R-reduce of the residual the probe returned (mean of row-wise sum of squares / "
         "plain mean / user error+reduce / weighted by the adaptive layer / stated norm and root per batch or over the full data set). "
         "non-trivial = >= 1 evaluation judged; distinct = (kind, declared order, static mode, #data functions, parameter, #evals, fired faults)")
-ASSUMPTIONS = ["IntegroPINN, HPM and DeepONet conditions are not generated (DeepONet algebra is C09's subject)",
+ASSUMPTIONS = ["HPM and DeepONet conditions are not generated (DeepONet algebra is C09's subject)",
                "adaptive samplers inside conditions are excluded (F32/F33 of DESIGN.md: loud IndexError/AttributeError)"]
 COMPONENTS = {"real": ["torchphysics conditions, samplers, UserFunction, Points, PointsDataLoader"],
               "owned_by_simulator": ["sampler draws (SimRNG)", "number of evaluations straddling the resample interval"],
